@@ -59,7 +59,12 @@ Inductive kind :=
 | KDense (X L : tensor F) (rep : F)
 | KCmtf (X : tensor F) (R : nat) (fs : list (tensor F)) (Y : tensor F) (fsY : list (tensor F)) (w wY : option (list F)) (rep : F)
 | KTrace (modes : list nat) (normalize linesearch cb : bool) (n_iter_max : nat) (stop_at : option nat) (accept_ls : bool)
-         (obs : trace_obs).
+         (obs : trace_obs)
+(* direct call of cp_normalize((w, fs)) -> (w', fs'); sc = column norms of the factors (factor 0 after it absorbed the weights),
+   an answer tape for the square roots that is validated by squaring.  Executed with Qops only (the model divides). *)
+| KNormalize (w : option (list F)) (fs : list (tensor F)) (sc : list (list F)) (w' : list F) (fs' : list (tensor F))
+(* direct call of tucker_normalize((G, fs)) -> (G', fs'); sc = column norms of the factors (validated tape).  Qops only. *)
+| KTuckerNormalize (G : tensor F) (fs : list (tensor F)) (sc : list (list F)) (G' : tensor F) (fs' : list (tensor F)).
 
 (* canonical form of an event list, applied to BOTH sides: what matters for "which iterate does an error belong to" is the order of
    the block updates, the kind and position of the error computations and the callbacks.  A normalisation is kept only where it
@@ -133,6 +138,36 @@ Definition agree_kind (k : kind) : bool :=
       if Qle_bool den 0 then false
       else qclose atol rtol (Qred ((toQ (fst a) + toQ (fst b)) / den)) (Qred (toQ rep / den))
   | KTrace modes nrm ls cb n stop_at acc obs => obs_eqb (run_trace modes nrm ls cb n stop_at acc) obs
+  | KNormalize w fs sc w' fs' =>
+      let s := rows_of fs in let N := length fs in
+      let R := nth 1%nat (shape (hd (mk [] []) fs)) 0%nat in
+      let st := blocks_of Op w fs in
+      let scf := fun k r => nth r (nth k sc []) (f0 Op) in
+      let ab := absorb_weights_F Op s st in
+      let out := cp_normalize_F Op s scf st in
+      let st' := blocks_of Op (Some w') fs' in
+      (* the tape: non-negative numbers whose squares are the column sums of squares (hypothesis good_tape of
+         C06_cp_normalize_tape_preserves_error, up to rounding) *)
+      forallb (fun k => forallb (fun r => fleb Op (f0 Op) (scf k r) &&
+                                           qclose atol rtol (toQ (fmul Op (scf k r) (scf k r))) (toQ (colsq Op s ab k r))) (seq 0 R)) (seq 0 N)
+      && Nat.eqb (length fs') N && Nat.eqb (length w') R && nat_list_eqb (rows_of fs') s
+      && forallb (fun k => forallb (fun i => forallb (fun r => qclose atol rtol (toQ (out k i r)) (toQ (st' k i r))) (seq 0 R))
+                                   (seq 0 (nth k s 0%nat))) (seq 0 N)
+      && forallb (fun r => qclose atol rtol (toQ (out N 0%nat r)) (toQ (st' N 0%nat r))) (seq 0 R)
+  | KTuckerNormalize G fs sc G' fs' =>
+      let s := rows_of fs in let N := length fs in
+      let rk := fun k => nth 1%nat (shape (nth k fs (mk [] []))) 0%nat in
+      let st := blocks_of Op None fs in
+      let scf := fun k a => nth a (nth k sc []) (f0 Op) in
+      let outG := tabulate (shape G) (tucker_normalize_core Op N scf (tfun Op G)) in
+      let outF := tucker_normalize_factors Op scf st in
+      let st' := blocks_of Op None fs' in
+      forallb (fun k => forallb (fun a => fleb Op (f0 Op) (scf k a) &&
+                                           qclose atol rtol (toQ (fmul Op (scf k a) (scf k a))) (toQ (colsq Op s st k a))) (seq 0 (rk k))) (seq 0 N)
+      && Nat.eqb (length fs') N && nat_list_eqb (rows_of fs') s && nat_list_eqb (shape G') (shape G)
+      && q_list_close atol rtol (map toQ (data outG)) (map toQ (data G'))
+      && forallb (fun k => forallb (fun i => forallb (fun a => qclose atol rtol (toQ (outF k i a)) (toQ (st' k i a))) (seq 0 (rk k)))
+                                   (seq 0 (nth k s 0%nat))) (seq 0 N)
   end.
 
 End A.
